@@ -76,6 +76,16 @@ def _values(desc):
         return np.zeros(shape, dtype=dt)
     if fill == "neg" and dt.kind in "ifc":
         return (base - 5).astype(dt)
+    if fill == "nanneg" and dt.kind in "fc":
+        # negative entries AND a NaN in the same array (a reduction such as min() is blind to the negatives then)
+        a = (base - 5).astype(dt)
+        if a.size >= 2:
+            k = rs.randint(0, a.size)
+            a.flat[k] = np.nan
+            a.flat[(k + 1 + rs.randint(0, a.size - 1)) % a.size] = -3
+        return a
+    if fill == "nanneg" and dt.kind == "i":
+        return (base - 5).astype(dt)
     if fill == "nan" and dt.kind in "fc":
         a = base.astype(dt)
         if a.size:
@@ -114,7 +124,7 @@ def materialise(desc):
     if form == "pyint":
         return int(desc["v"])
     if form == "pyfloat":
-        return {"pos": 2.5, "neg": -1.5, "nan": float("nan"), "huge": 1e300, "zero": 0.0}[desc["fill"]]
+        return {"pos": 2.5, "neg": -1.5, "nan": float("nan"), "nanneg": -1.5, "huge": 1e300, "zero": 0.0}[desc["fill"]]
     if form == "pybool":
         return True
     if form == "none":
@@ -155,7 +165,7 @@ def lean_operand(desc):
 def gen_operand(rng, ident, kind, rows, cols, purpose):
     """purpose: 'set' | 'set3' | 'iadd' | 'update'"""
     good_dts = UINTS if kind == "image" else FLOATS
-    d = {"id": ident, "seed": rng.randrange(10**6), "fill": rng.choice(["pos", "pos", "pos", "neg", "neg", "nan", "huge", "zero"])}
+    d = {"id": ident, "seed": rng.randrange(10**6), "fill": rng.choice(["pos", "pos", "pos", "neg", "neg", "nan", "nanneg", "nanneg", "huge", "zero"])}
     want3 = purpose == "set3" or (kind == "photon" and purpose == "iadd" and rng.random() < 0.35)
     r = rng.random()
     if want3:
@@ -219,6 +229,8 @@ def gen_source(rng, ident, kind, rows, cols):
         return src
     d = {"id": ident, "seed": rng.randrange(10**6), "fill": rng.choice(["pos", "pos", "zero", "huge", "nan"]), "form": "ndarray",
          "shape": [srows, scols], "dtype": rng.choice(UINTS if skind == "image" else FLOATS)}
+    if skind != "photon" and skind != "image" and rng.random() < 0.3:
+        d["fill"] = rng.choice(["neg", "nanneg"])  # (a photon source would already have clipped them itself)
     if d["dtype"] in UINTS and d["fill"] == "nan":
         d["fill"] = "pos"
     if skind == "photon" and r < 0.45:
@@ -695,6 +707,25 @@ def body(ck: common.Check):
                                             "form": "ndarray", "shape": shape, "dtype": dt}])
                     b["ops"].append(["read"])
                 boxes.append(("dtypes", b))
+    # directed: photon assignments of arrays holding BOTH NaN and negative counts, every float type, every assignment path
+    for dt in FLOATS:
+        for path in ("set", "iadd", "plus", "set3", "iadd3", "plus3", "adopt", "set-after-full", "set3-after-full"):
+            for _ in range(2):
+                rows, cols = rng.randint(1, 4), rng.randint(2, 4)
+                b = directed_box(rng, ids, "photon", rows, cols, "full" if path.endswith("after-full") else "empty")
+                b["ops"] = [op for op in b["ops"] if op[0] != "read"]
+                ids[0] += 1
+                d = {"id": ids[0], "seed": rng.randrange(10**6), "fill": "nanneg", "form": "ndarray", "shape": [rows, cols], "dtype": dt}
+                if "3" in path:
+                    d.update(form="dataarray", dims="std", coord=True, shape=[rng.choice([1, 2, 3]), rows, cols])
+                if path == "adopt":
+                    b["ops"].append(["adopt", {"id": ids[0], "skind": rng.choice(["pixel", "signal"]), "rows": rows, "cols": cols,
+                                               "det": "CCD", "hold": d}])
+                else:
+                    b["ops"].append([{"set": "set", "set-after-full": "set", "set3": "set3", "set3-after-full": "set3"}.get(path, "iadd"), d])
+                    b["plus"] = path.startswith("plus")
+                b["ops"].append(["read3" if "3" in path else "read"])
+                boxes.append(("nan+negative", b))
     for _ in range(1500 if quick else 25000):
         boxes.append(("random", gen_box(rng, ids)))
     eqs = [gen_eq_case(rng, ids) for _ in range(600 if quick else 8000)]
@@ -752,7 +783,7 @@ def body(ck: common.Check):
     ck.rule = ("operation histories (1-12 ops: .array=, .array_3d=, update, +=/+, detector.<bucket> = <container of another detector>, empty, .array, .array_3d, .dtype, .shape) on the real "
                "photon/pixel/signal/image/phase containers of CCD/CMOS/MKID/APD detectors of 1..5 x 1..5 pixels; operands: right/wrong "
                "shapes (transposed, +1, 1-D, 3-D, 0-d, broadcastable), all 19 numpy dtypes incl. object/str/datetime, lists, numpy and "
-               "Python scalars, None, DataArrays with right/wrong dims/coords, negative/NaN/huge/zero fills; plus every dtype x "
+               "Python scalars, None, DataArrays with right/wrong dims/coords, negative/NaN/NaN-and-negative/huge/zero fills; photon assignments of NaN-and-negative arrays by every path (set, set3, +=/+ on empty, adopt) x float16/32/64 directed; plus every dtype x "
                "{empty, full} x kind directed; equality on pairs (all emptiness combinations, same/different kind, shape, values, 2-D/3-D); "
                "non-trivial = at least two ops with at least one success (eq: at least one side full); distinct by canonical JSON")
     ck.assumptions = [
